@@ -703,6 +703,31 @@ func checkHull(c hullCase) (o ev.Outcome) {
 		o.Finding = "hull-not-idempotent"
 		return o
 	}
+	// a query that was asked for its hull half-way through the input and then
+	// given the rest ends with the same loop (the intermediate call must not
+	// leave state behind)
+	allPoints := true
+	for _, it := range c.Items {
+		allPoints = allPoints && it.Type == "points"
+	}
+	if allPoints { // (AddLoop / AddPolygon also feed the region's bound, which decides the full-loop switch)
+		q2 := s2.NewConvexHullQuery()
+		half := len(pts) / 2
+		for _, p := range pts[:half] {
+			q2.AddPoint(p)
+		}
+		if half > 0 {
+			_ = q2.ConvexHull()
+		}
+		for _, p := range pts[half:] {
+			q2.AddPoint(p)
+		}
+		if h3 := q2.ConvexHull(); !sameCyclic(hv, h3.Vertices()) {
+			o.Err = fmt.Sprintf("hull of the same %d points added in two stages with a ConvexHull() call in between differs (%d vs %d vertices)", len(pts), n, len(h3.Vertices()))
+			o.Finding = "hull-incremental"
+			return o
+		}
+	}
 	// input loops are contained as loops
 	for i, l := range loops {
 		if !hull.Contains(l) {
